@@ -59,6 +59,7 @@ def callback_cases(ctx, records, stream, wild):
     """records: list of rule dicts.  Calls lark's callback objects and emits Coq cb_case terms."""
     rng = ctx.rng
     cases, meta = [], []
+    nrep = [0]
     for r in records:
         rule = sl.make_rule(r)
         for mp in (False, True):
@@ -86,7 +87,8 @@ def callback_cases(ctx, records, stream, wild):
                     # unit-level statement of the property (python mirror of the specification)
                     if f is not None and wf and len(ch) == len(r['exp']):
                         want = sl.spec_rule_py(r, mp, ch)
-                        if want != obs:
+                        if want != obs and nrep[0] < 3:
+                            nrep[0] += 1
                             ctx.violation('correspondence:callback-vs-documented-shaping',
                                           {'no_longer_checks': 'callback == documented shaping of the rule application',
                                            'rule': r, 'maybe_placeholders': mp, 'ambiguous': amb,
@@ -109,7 +111,7 @@ def callback_cases(ctx, records, stream, wild):
     bad, errs = ctx.coq_bad_indices('c03' + stream.replace('-', ''), IMPORTS, 'cb_check', cases, chunk=250)
     for e in errs:
         ctx.violation('correspondence:coq-eval', {'error': e}, False, e[:300])
-    for i in bad[:5]:
+    for i in bad[:3]:
         r, mp, amb, calls = meta[i]
         ctx.violation('correspondence:Shape/Chain.v vs parse_tree_builder callback',
                       {'no_longer_checks': 'model/implementation agreement on the rule callback', 'rule': r,
@@ -205,10 +207,6 @@ def correspond(ctx):
     rng = ctx.rng
     wide = 3 if ctx.widen else 1
 
-    # (a) random rule records against lark's callback objects ---------------------------------------
-    recs = [sl.random_record(rng, True) for _ in range(ctx.scale(260, 2500) * wide)]
-    callback_cases(ctx, recs, 'callback-random', True)
-
     # (r) fixed regression stream: helper rules must not be shared between `!` and plain rules (F18)
     f18_present = False
     for gtext, text in F18_WITNESSES:
@@ -295,6 +293,10 @@ def correspond(ctx):
                       {'no_longer_checks': 'Coq shape of the LALR derivation == lark tree', 'grammar': gtext, 'text': text,
                        'keep_all_tokens': ka, 'maybe_placeholders': mp, 'observed': sl.show(tree)}, False,
                       'Coq shape / driver of the derivation lark followed differs from the tree lark returned')
+
+    # (a) random rule records against lark's callback objects ---------------------------------------
+    recs = [sl.random_record(rng, True) for _ in range(ctx.scale(260, 2500) * wide)]
+    callback_cases(ctx, recs, 'callback-random', True)
 
     # (b) compiled rules of those grammars against the callback objects --------------------------------
     uniq = {}
